@@ -49,11 +49,11 @@ def fhex(x: float) -> str:
     """A Python float as a Coq PrimFloat literal (exact)."""
     x = float(x)
     if x != x:
-        return "nan"
+        return "PrimFloat.nan"
     if x == math.inf:
-        return "infinity"
+        return "PrimFloat.infinity"
     if x == -math.inf:
-        return "neg_infinity"
+        return "PrimFloat.neg_infinity"
     h = x.hex()
     if h.startswith("-"):
         return f"(-{h[1:]})%float"
@@ -151,15 +151,29 @@ def translate_and_make(targets: list[str], timeout: int = 1500) -> BuildResult:
     return res
 
 
-def check_property_file(pid: str, res: BuildResult, work: str) -> None:
-    """Re-run coqc on Properties/<pid>.v itself: the final `exact` steps are re-checked on every run and
-    Print Assumptions is captured for the evidence."""
+def start_property_file(pid: str, res: BuildResult, work: str):
+    """Start coqc on Properties/<pid>.v itself (in the background, while the correspondence runs): the final
+    `exact` steps are re-checked on every run and Print Assumptions is captured for the evidence."""
     src = os.path.join(COQ, "Properties", f"{pid}.v")
     txt = open(src).read()
     res.theorems = re.findall(r"^\s*(?:Theorem|Example)\s+([A-Za-z0-9_']+)", txt, flags=re.M)
     if not res.ok:
+        return None
+    return subprocess.Popen(["coqc", "-R", ".", "VF", "-w", "-notation-overridden", "-o", os.path.join(work, f"{pid}.vo"), f"Properties/{pid}.v"],
+                            cwd=COQ, stdout=subprocess.PIPE, stderr=subprocess.STDOUT, text=True)
+
+
+def finish_property_file(pid: str, res: BuildResult, proc) -> None:
+    if proc is None:
         return
-    rc, out = _run(["coqc", "-R", ".", "VF", "-w", "-notation-overridden", "-o", os.path.join(work, f"{pid}.vo"), f"Properties/{pid}.v"], cwd=COQ, timeout=900)
+    src = os.path.join(COQ, "Properties", f"{pid}.v")
+    txt = open(src).read()
+    try:
+        out, _ = proc.communicate(timeout=1500)
+        rc = proc.returncode
+    except subprocess.TimeoutExpired:
+        proc.kill()
+        rc, out = 124, "TIMEOUT"
     if rc != 0:
         res.ok = False
         m = re.search(r'File "\./([^"]+)", line (\d+)', out)
@@ -209,10 +223,10 @@ def run_coq_cases(work: str, name: str, imports: str, groups: list[tuple[str, st
             fn = os.path.join(work, f"{name}_{fileno}.v")
             with open(fn, "w") as f:
                 f.write(CASE_HEADER.format(imports=imports))
-                f.write(f"Definition cases : list (nat * ({ctype})) := [\n")
-                f.write(";\n".join(f"({k + j}%nat, {lit})" for j, lit in enumerate(part)))
+                f.write(f"Definition cases : list (int * ({ctype})) := [\n")
+                f.write(";\n".join(f"({k + j}%uint63, {lit})" for j, lit in enumerate(part)))
                 f.write("\n].\n")
-                f.write(f"Definition bad := flat_map (fun c : nat * ({ctype}) => if ({checker}) (snd c) then [] else [fst c]) cases.\n")
+                f.write(f"Definition bad := flat_map (fun c : int * ({ctype}) => if ({checker}) (snd c) then [] else [fst c]) cases.\n")
                 f.write('Eval vm_compute in (("MISMATCH"%string, bad)).\n')
             files.append(fn)
             k += len(part)
@@ -246,14 +260,14 @@ def run_coq_cases(work: str, name: str, imports: str, groups: list[tuple[str, st
                 log += f"\n{fn}: coqc failed:\n{out[-2000:]}"
                 bad.append(-1)
                 continue
-            m = re.search(r'\("MISMATCH",\s*\[(.*?)\]\)', out, flags=re.S)
+            m = re.search(r'\("MISMATCH"(?:%string)?,\s*\[(.*?)\]\)', out, flags=re.S)
             if not m:
                 log += f"\n{fn}: unparsable output:\n{out[-500:]}"
                 bad.append(-1)
                 continue
             body = m.group(1).strip()
             if body:
-                bad += [int(x.replace("%nat", "").strip()) for x in body.split(";") if x.strip()]
+                bad += [int(x.replace("%uint63", "").replace("%sint63", "").strip()) for x in body.split(";") if x.strip()]
         running = still
         if running:
             time.sleep(0.05)
@@ -328,7 +342,7 @@ class _Rewriter(ast.NodeTransformer):
     def visit_BinOp(self, node):
         self.generic_visit(node)
         if isinstance(node.op, ast.Pow):
-            return ast.copy_location(ast.Call(func=ast.Name(id="__rec_pow", ctx=ast.Load()), args=[node.left, node.right], keywords=[]), node)
+            return ast.copy_location(ast.Call(func=ast.Name(id="REC_POW_", ctx=ast.Load()), args=[node.left, node.right], keywords=[]), node)
         return node
 
     def visit_Call(self, node):
@@ -336,7 +350,7 @@ class _Rewriter(ast.NodeTransformer):
         f = node.func
         if isinstance(f, ast.Attribute) and isinstance(f.value, ast.Name) and f.value.id == "np" and f.attr in ("exp", "log", "cos", "power") and not node.keywords:
             return ast.copy_location(
-                ast.Call(func=ast.Name(id="__rec_np", ctx=ast.Load()), args=[ast.Constant(value=f.attr), f] + node.args, keywords=[]), node
+                ast.Call(func=ast.Name(id="REC_NP_", ctx=ast.Load()), args=[ast.Constant(value=f.attr), f] + node.args, keywords=[]), node
             )
         return node
 
@@ -358,8 +372,8 @@ def observed_module(modname: str) -> types.ModuleType:
     mod = types.ModuleType(f"fuzzylite.{modname}__observed")
     mod.__package__ = "fuzzylite"
     mod.__file__ = real.__file__
-    mod.__dict__["__rec_pow"] = _rec_pow
-    mod.__dict__["__rec_np"] = _rec_np
+    mod.__dict__["REC_POW_"] = _rec_pow
+    mod.__dict__["REC_NP_"] = _rec_np
     sys.modules[mod.__name__] = mod
     exec(compile(tree, real.__file__, "exec"), mod.__dict__)
     _OBSERVED[modname] = mod
